@@ -138,6 +138,29 @@ def check_M3(ctx, rep):
             if len(have) < 4:
                 continue
             n += 1
+            # every arm of a binding-carrying variant descends into the sub-pattern(s): it calls the walker itself again
+            for a in x['arms']:
+                vs = set()
+                for y, _ in walk(a['p']):
+                    d = (y.get('path') or {}).get('d') or y.get('d') or ''
+                    if '::Pat::' in d:
+                        vs.add(d.split('::Pat::')[-1].split('::')[0])
+                vs &= set(PAT_VARIANTS_WITH_SUBPATTERNS)
+                if not vs:
+                    continue
+                recurses = False
+                for y, _ in walk(a['b']):
+                    c = callee(y) if y.get('k') in ('call', 'mcall') else None
+                    if c and (c.get('d') or '').split('::')[-1] == b['name']:
+                        recurses = True
+                    # the walker handed on as a function value: `cases.iter().map(pattern_get_vars)`
+                    if y.get('k') == 'path' and y.get('res') == 'def' and (y.get('d') or '').split('::')[-1] == b['name']:
+                        recurses = True
+                rep.inst('M3', '%s: arm %s descends into its sub-patterns: %s' % (path, sorted(vs), recurses))
+                if not recurses:
+                    rep.viol('M3', path, 'pat-arm-shallow:' + ','.join(sorted(vs)),
+                             'the arm for `Pat::%s` of `%s` does not walk the sub-pattern (e.g. `whole @ Some(y)`): variables bound below are '
+                             'invisible to the rule compiler' % ('/'.join(sorted(vs)), b['name']), loc=cr.loc(a['b']))
             missing = [v for v in PAT_VARIANTS_WITH_SUBPATTERNS if v not in have]
             rep.inst('M3', '%s: match on syn::Pat handles %d variants; binding-carrying variants missing: %s' % (path, len(have), missing or 'none'))
             rep.functions.add(path)
